@@ -27,7 +27,7 @@ func init() {
 		Text: "Quantize delivers a number only when every guard was passed: on each path of Quantize that does not store the shared NaN, the decisions x.Form == Infinite, exp < etiny and exp > c.MaxExponent were all taken and are false; and the Overflow/Underflow test that turns the result into NaN reads the accumulated flags (quantize's own included)",
 		Run:  ruleQuantizeAllGuards})
 	register(&Rule{ID: "C10.R3", Min: 1,
-		Text: "alignment accepts every exponent gap up to the package limit, whatever the operand order: upscale's only failing test compares the non-negative exponent difference itself (computed after the operands were ordered) with MaxExponent by `>`",
+		Text: "alignment accepts every exponent gap two operands inside the package limits can have (2·MaxExponent), whatever the operand order: upscale's only failing test compares the difference of the two exponents with an effective bound of at least 2·MaxExponent",
 		Run:  ruleUpscaleGap})
 	register(&Rule{ID: "C14.R10", Min: 1,
 		Text: "the '+' flag overrides the ' ' flag, as in fmt: a sign text \" \" is chosen only where s.Flag('+') was tested and is false",
@@ -472,6 +472,7 @@ func ruleUpscaleGap(w *World, r *RuleResult) {
 		}
 		n++
 		good := false
+		tooLow := ""
 		var seen []string
 		for _, g := range guardsAt(b) {
 			bo, isB := g.Cond.(*ssa.BinOp)
@@ -480,33 +481,51 @@ func ruleUpscaleGap(w *World, r *RuleResult) {
 			}
 			seen = append(seen, w.exprOf(f, g.Cond).String())
 			k, isK := bo.Y.(*ssa.Const)
-			if !isK || !g.Val {
+			if !isK || !g.Val || (bo.Op != token.GTR && bo.Op != token.GEQ) {
 				continue
 			}
-			if !((bo.Op == token.GTR && ci(k) == maxE) || (bo.Op == token.GEQ && ci(k) == maxE+1)) {
-				continue
+			// the compared value: a difference of the two (converted) Exponent loads, possibly plus a constant;
+			// the effective bound on the difference must be at least 2·MaxExponent — the exponents of two
+			// operands inside the package limits differ by up to that much (Add(1E+100000, 1E-100000) has a
+			// result, 1.0000E+100000 at Precision 5). Whether the difference is taken before or after the
+			// operands are ordered does not matter below that bound: a negative difference is never refused.
+			x, off := bo.X, int64(0)
+			if add, isAdd := x.(*ssa.BinOp); isAdd && (add.Op == token.ADD || add.Op == token.SUB) {
+				if kc, isKC := add.Y.(*ssa.Const); isKC && kc.Value != nil {
+					x = add.X
+					off = ci(kc)
+					if add.Op == token.SUB {
+						off = -off
+					}
+				}
 			}
-			// the compared value: a difference of two (converted) Exponent loads taken through φs, i.e. after
-			// the operands were ordered — a difference of the parameters' own fields is order-dependent
-			sub, isSub := bo.X.(*ssa.BinOp)
+			sub, isSub := x.(*ssa.BinOp)
 			if !isSub || sub.Op != token.SUB {
 				continue
 			}
-			ordered := true
+			isDiff := true
 			for _, o := range []ssa.Value{sub.X, sub.Y} {
-				e := w.exprOf(f, o).String()
-				if !strings.Contains(e, ".Exponent") {
-					ordered = false
-				}
-				if !strings.Contains(e, "phi{") {
-					ordered = false
+				if !strings.Contains(w.exprOf(f, o).String(), ".Exponent") {
+					isDiff = false
 				}
 			}
-			if ordered {
-				good = true
+			if !isDiff {
+				continue
 			}
+			// D + off > K  ⇔  D > K − off ;  D + off >= K  ⇔  D > K − off − 1
+			bound := ci(k) - off
+			if bo.Op == token.GEQ {
+				bound--
+			}
+			if bound < 2*maxE {
+				tooLow = fmt.Sprintf("the alignment refuses exponent gaps above %d: the exponents of two operands inside the package limits differ by up to %d, so Add(1E+100000, 1E-100000) fails with 'exponent out of range' and no result although 1.0000E+100000 (Inexact, Rounded) is required", bound, 2*maxE)
+				continue
+			}
+			good = true
 		}
-		if !good {
+		if !good && tooLow != "" {
+			bad = append(bad, tooLow+fmt.Sprintf(" (the failing return at %s)", w.instrPos(rt)))
+		} else if !good {
 			bad = append(bad, fmt.Sprintf("the failing return at %s is under %s", w.instrPos(rt), short(strings.Join(seen, " ∧ "), 160)))
 		}
 	}
@@ -514,9 +533,9 @@ func ruleUpscaleGap(w *World, r *RuleResult) {
 	case n == 0:
 		r.ok(key, w.pos(f.Pos()), "upscale has no failing return", true)
 	case len(bad) > 0:
-		r.bad(key, w.pos(f.Pos()), joinStrings(bad)+", not under (larger exponent − smaller exponent) > MaxExponent taken after the operands were ordered: gaps of exactly the package limit, or one operand order, are rejected")
+		r.bad(key, w.pos(f.Pos()), joinStrings(bad)+": the only failing test must compare the difference of the two exponents with a bound of at least 2·MaxExponent — otherwise gaps that well-formed operands have are rejected")
 	default:
-		r.ok(key, w.pos(f.Pos()), "fails only under (ordered exponent difference) > MaxExponent", true)
+		r.ok(key, w.pos(f.Pos()), "fails only under (ordered exponent difference) > a bound of at least 2·MaxExponent", true)
 	}
 }
 
